@@ -82,7 +82,7 @@ func verifReplayOne(t *testing.T, path string) {
 			ok = strings.HasPrefix(o, "panic:")
 		case "deadlock", "spin":
 			ok = o == "hang"
-		case "witness":
+		case "witness", "race":
 			ok = o == "returned"
 		}
 		if ok {
